@@ -10,14 +10,6 @@ def _tag(line, out):
         n = len(args) - 1
         alias = "alias" if len(set(args)) < len(args) else "distinct"
         tag = "append:%s:%s" % ("0" if n <= 0 else "1" if n == 1 else "2-3" if n <= 3 else "4+", alias)
-        # Appendix B observation: with a nil err the first non-nil *Error argument is adopted (the result IS that
-        # argument, which is therefore mutated) — visible as the result sharing the identity of a later argument
-        for tok in out.split(" "):
-            if tok.startswith(w[0] + ":e#"):
-                j = tok[len(w[0]) + 3:].split("[", 1)[0]
-                if "v" + j != w[0] and "v" + j != args[0] and "v" + j in args[1:]:
-                    tag += ":adopts-argument"
-                break
         return tag
     return w[2]
 
@@ -30,9 +22,8 @@ def run(ctx):
         "the creating function, never changed afterwards, kept by copies, listed along Append results); wrap_nil / "
         "wrapTyped_nil / wrap_idempotent / error_or_nil / capture_records_creator / copy_keeps_stack / caused_by_structure "
         "are unfoldings of the transcription (they carry the transcription, which the correspondence run ties to the code). "
-        "Reading (Appendix B): with a nil err the first non-nil *Error argument is the accumulator and grows — "
-        "append_args_unchanged covers the arguments after it (restOf), NOT `a` in Append(nil, a, …); a one-line candidate fix "
-        "was sent to the coordinator. Implementation-only: frames below the creating function, file:line text, errors.Is/As, "
+        "append_args_unchanged covers EVERY argument (since fix f2f6175 a nil err copies its first argument too). "
+        "Implementation-only: frames below the creating function, file:line text, errors.Is/As, "
         "Unwrap() []error, Recovery, slog. Not covered by the Append theorems: heaps after CloneWithPrefixMessage of an "
         "aggregate (shared tails; correspondence only).")
     ctx.modelled += [
@@ -51,14 +42,13 @@ def run(ctx):
         "forward) are covered by the correspondence run only",
         "the model driver evaluates the Boolean form of WF on every heap of every history without clone and prints an "
         "alarm (a mismatch) if it fails",
-        "Appendix B: when err is nil the first non-nil *Error argument is adopted as the accumulator (and mutated)",
         "reading of 'the errors contained in its arguments': each argument is read as the value it has at the time "
         "Append consumes it — an argument that aliases the accumulator (Append(a, b, a)) is read after the accumulator "
         "has grown and contributes a, b; this is the content law append_items_alias (proved), not a violation",
     ]
     ctx.extra["observations"] = [
-        "Appendix B: Append(nil, a, b) returns a itself (a is mutated; Count 2) — tag `adopts-argument` in tag_histogram "
-        "counts the generated calls where this happened; not alarmed on",
+        "fixed (f2f6175): Append(nil, a, b) used to return a itself and grow it; now a nil err starts from nothing and every "
+        "argument is copied (corpus errs.fixed-defects.ops, seeded/revert-c11-append-adopts)",
         "aliased call: Append(a, b, a) contains a, b, a, b (Count 4): the second a is read after a has grown; model and "
         "implementation agree; outside append_items (hypothesis NoAlias); proved as append_items_alias",
         "fixed (f303e30): NewWithCause(msg, typed nil) kept the typed-nil cause and rendering panicked; the model drops "
@@ -94,7 +84,7 @@ def run(ctx):
         "5 aliasing and reuse": "every variable is re-observed after every call; new op `elem` (element of WrappedErrors() "
                                 "as accumulator/argument), clone as accumulator, the accumulator as its own argument; old "
                                 "errors are rendered late and must name their own creating function (stack identity table)",
-        "6 history shapes": "aggregates in first/middle/last position and two in a row; empty/nil-only calls; adoption; "
+        "6 history shapes": "aggregates in first/middle/last position and two in a row; empty/nil-only calls; nil err with *Error arguments (every argument copied); "
                             "typed-nil causes; causes that wrap an *Error (fwrap, fmt.Errorf %w, errors.Join) rendered and "
                             "wrapped; messages empty, multi-line, with % verbs, with the library's own marker texts, UTF-8",
         "7 independent oracles": "Count/Message/WrappedErrors/identity come from the Lean model; %q from strconv.Quote; "
